@@ -55,7 +55,7 @@ Proof.
   destruct (bytes_eqb _ _); [|cbn; apply bad_sametw].
   match goal with |- context [k ?X] => assert (E1 : sametw s X) by (intros q'; cbn; unfold upd; destruct (Nat.eqb_spec q' q); subst; reflexivity);
     pose proof (Hk X) as E2; destruct (k X) end; cbn in *; try (eapply sametw_trans; eassumption).
-  eapply sametw_trans; [exact E1|]. eapply sametw_trans; [exact E2|].
+  eapply sametw_trans; [exact E1|]. destruct (pending _); [|exact E2]. eapply sametw_trans; [exact E2|].
   unfold resume_r. destruct (_ || _); [apply sametw_refl|]. apply modc_sametw. reflexivity.
 Qed.
 Lemma handle_sametw k q op body s : ktw k -> sametw s (st (fst (handle store async_store k q op body s))).
